@@ -71,3 +71,5 @@ for f in good good-wrongname expired expired-wrongname unknown unknown-wrongname
   openssl x509 -in $f.pem -noout -subject -dates -ext subjectAltName | tr '\n' ' '; echo
 done
 echo "# systemstore.pem: placeholder bundle that SSL_CERT_FILE points at during checks (generated with: openssl req -x509 -newkey rsa:2048 -nodes -keyout /dev/null -subj /CN=placeholder -days 36500)"
+# added later with the kept ca.key (not by re-running the lines above): two leaves that are not valid *yet*
+#   leaf notyet ca "$GOOD_SAN" 21100101000000Z 21200101000000Z ; leaf notyet-wrongname ca "$WRONG_SAN" 21100101000000Z 21200101000000Z
